@@ -123,8 +123,10 @@ UNIT = dict(
          pre_subst=[(r'\bconstexpr auto\b', 'const auto', 'constexpr_local')], subst=[(r'\bresult\b', '(*result_p)', 'result_ref')],
          must_fire={'A_LOAD': 1, 'method:mark': 1, 'method:get': 1}),
     dict(S, id='hp_set_link', sig=r'void set_link\(hazard_pointer\* link\)', c_sig='static void hp_set_link(struct hp_slot* self, struct hp_slot* link)',
+         types={'void**': 'xv_p2w'},
          pre_subst=[(r'marked_ptr<void\*, 1>\(', 'SV_make(', 'marked_ptr_ctor')], must_fire={'A_STORE': 1, 'subst:marked_ptr_ctor': 1}),
     dict(S, id='hp_get_link', sig=r'hazard_pointer\* get_link\(\) const', c_sig='static struct hp_slot* hp_get_link(struct hp_slot* self)',
+         types={'hazard_pointer*': 'xv_w2p'},
          must_fire={'A_LOAD': 1, 'method:get': 1, 'self_call:is_link': 1}),
     dict(S, id='hp_is_link', sig=r'bool is_link\(\) const', c_sig='static _Bool hp_is_link(struct hp_slot* self)', self_calls={},
          must_fire={'A_LOAD': 1, 'method:mark': 1}),
